@@ -134,8 +134,21 @@ def run(ctx):
         want = np.where(src[1], 0.0, src[0]) @ dm.astype(np.float32).astype(np.float64)
         if not same_view(aug, (want, src[1], src[2]), tol=1e-5):
             bad("augment2d does not apply one common linear map of the first two coordinates", {"seed": seed, "stds": stds})
-        # ---- focus (also on the same pose at another scale: extents beyond 65 535 and below 1; the data stay dyadic, hence exact)
-        for fscale in ((1.0, rng.choice([8192.0, 65536.0, 1 / 64])) if observed else ()):
+        # ---- the same Pose object after its body was replaced (utils/holistic.py and user code assign `pose.body = …`): the operations act on the pose as it is now
+        try:
+            q = build(case)
+            first = q.flip(0)
+            q.body = first.body                                  # the pose now holds the flipped body …
+            back = arrays(q.flip(0))                             # … so flipping it again gives the original
+            q.body = q.body.matmul(M1) if hasattr(q.body, "matmul") else q.body
+            cur = arrays(q)
+            a_id = arrays(q.augment2d(rotation_std=0, shear_std=0, scale_std=0))
+            if not same_view(back, src) or not same_view(a_id, cur):
+                bad("after the pose's body was replaced, flip / augment2d act on the body it had before", {"flip_again_ok": bool(same_view(back, src)), "augment_identity_ok": bool(same_view(a_id, cur))}, {"what": "replaced body"})
+        except Exception as e:
+            bad("flip / augment2d raise after the pose's body was replaced", {"error": type(e).__name__ + ": " + str(e)[:80]}, {"what": "replaced body"})
+        # ---- focus (also on the same pose at another scale: extents beyond 65 535, below 1 and below 0.001; the data stay dyadic, hence exact)
+        for fscale in ((1.0, 8192.0, 65536.0, 1 / 64, 1 / 16384) if observed else ()):
             fcase = case if fscale == 1.0 else dict(case, body=dict(case["body"], data=pc.f32_to_bits(pc.bits_to_f32(case["body"]["data"], (-1,)) * np.float32(fscale))))
             fsrc = src if fscale == 1.0 else arrays(build(fcase))
             ctx.count("focus scale:%g" % fscale)
